@@ -1495,7 +1495,9 @@ class Py2Cpp(ITranspiler):
 			else:
 				primary = self.render(node, 'operation/binary_operator', vars={'left': primary, 'operator': operator, 'right': secondary, 'left_var_type': self.to_domain_name(primary_raw), 'right_var_type': self.to_domain_name(right_raw)})
 
-			primary_raw = right_raw
+			# 累積した左辺の型: 左辺が浮動小数点であれば算術演算の結果も浮動小数点のまま (例: `x % a % b` -> `fmod(fmod(x, a), b)`)
+			if self.to_domain_name(primary_raw) not in ['float', 'double']:
+				primary_raw = right_raw
 
 		return primary
 
